@@ -257,6 +257,18 @@ fn directory(case: &Case, obs: &mut Obs) -> PropResult {
 			return Err(format!("harness: cannot create scratch directory {:?}", s.path));
 		}
 	}
+	// history: one case in three writes a longer version of the same classes (longer comments, one more field each: same
+	// files, more text) into the first directory before the set itself - nothing of it may be left
+	if case.order2 % 3 == 0 {
+		let mut longer = m.clone();
+		for c in longer.classes.values_mut() {
+			c.doc = Some(format!("{}\nan earlier, longer version of this comment that is gone in the next write", c.doc.clone().unwrap_or_default()));
+			c.fields.insert(crate::mapmodel::MemberKey::new("zzEarlier", "J"), crate::mapmodel::MField { names: vec![Some("zzEarlier".into()), Some("earlierOnly".into())], doc: Some("only in the earlier version".into()) });
+		}
+		let ql = to_quill::<2, Ns>(&longer, case.order2).map_err(|e| format!("harness: {e:#}"))?;
+		quill::enigma_dir::write(&ql, &s1.path).map_err(|e| format!("enigma_dir::write (earlier version) failed: {e:#}"))?;
+		obs.label("directory_written_twice:longer_version_first");
+	}
 	quill::enigma_dir::write(&q1, &s1.path).map_err(|e| format!("enigma_dir::write failed: {e:#}"))?;
 	quill::enigma_dir::write(&q2, &s2.path).map_err(|e| format!("enigma_dir::write failed: {e:#}"))?;
 	let t1 = tree(&s1.path)?;
